@@ -151,7 +151,7 @@ func (env *SpecEnv) lookupLocal(name string) *Val {
 					continue
 				}
 				v, isVar := d.Object().(*types.Var)
-				if !isVar || v.Name() != name {
+				if !isVar || v.Name() != name || v.IsField() {
 					continue
 				}
 				if _, have := fr.vals[d.X]; !have {
